@@ -1008,39 +1008,363 @@ Proof.
   intros g i more T p Hg Hsep Hctx. cbn [toks_values app length flat_values]. rewrite Nat.add_0_r, app_nil_r. apply reaches_refl.
 Qed.
 
-(* ------------------------------------------------------------------ stage 2: the plain grammar *)
+(* ------------------------------------------------------------------ mixed containers: token steps *)
+Lemma op2_none c d1 :
+  beq c 60 = false -> beq c 62 = false -> beq c 33 = false -> beq c 61 = false -> op2 (c :: d1) = None.
+Proof.
+  intros H60 H62 H33 H61. destruct c as [|pc]; [reflexivity|].
+  repeat (destruct pc as [pc|pc|]; try reflexivity); discriminate.
+Qed.
+
+Lemma tinsert_snoc T x y : tinsert_before_last (T ++ [x]) y = Some (T ++ [y; x]).
+Proof.
+  unfold tinsert_before_last. rewrite length_snoc.
+  rewrite firstn_app, Nat.sub_diag, firstn_all, skipn_app, Nat.sub_diag, skipn_all. cbn. rewrite app_nil_r. reflexivity.
+Qed.
+
+(* a second bare value where an operator is expected: the object turns into a mixed container *)
+Lemma step_kvs_to_mixed g c d1 p T x :
+  gap_ok g -> scalar_start c = true \/ c = 125%N ->
+  ~ (c = 63%N /\ exists r, d1 = 61%N :: r) ->
+  step (mkps (g ++ c :: d1) SKvs false p (T ++ [x])) = Next (mkps (c :: d1) SArrVal true p (T ++ [TMixedContainer; x])).
+Proof.
+  intros Hg Hc Hq.
+  assert (Hsig : significant c = true) by (apply value_start_or_close_sig; destruct Hc as [H| ->]; [left; left; exact H | right; reflexivity]).
+  assert (Hfacts : beq c 60 = false /\ beq c 62 = false /\ beq c 33 = false /\ beq c 61 = false /\ beq c 123 = false).
+  { destruct Hc as [H| ->]; [|repeat split; reflexivity]. apply scalar_start_facts in H. tauto. }
+  destruct Hfacts as (H60 & H62 & H33 & H61 & H123).
+  unfold step. cbn [pdata pst_ pmixed pparent ptape].
+  rewrite skip_ws_gap_sig by assumption. rewrite op2_none by assumption. rewrite H123, tinsert_snoc.
+  destruct (beq c 63) eqn:E63; [|reflexivity]. cbn [andb].
+  destruct d1 as [|c1 r]; [reflexivity|].
+  destruct (N.eqb_spec c1 61) as [->|Hne].
+  - exfalso. apply Hq. split; [apply N.eqb_eq; exact E63 | eexists; reflexivity].
+  - destruct c1 as [|pc]; [reflexivity|]. repeat (destruct pc as [pc|pc|]; try reflexivity). congruence.
+Qed.
+
+Lemma reach_kvs_to_mixed g c d1 p T x :
+  gap_ok g -> scalar_start c = true \/ c = 125%N ->
+  ~ (c = 63%N /\ exists r, d1 = 61%N :: r) ->
+  reaches (mkps (g ++ c :: d1) SKvs false p (T ++ [x])) (mkps (g ++ c :: d1) SArrVal true p (T ++ [TMixedContainer; x])).
+Proof.
+  intros Hg Hc Hq. eapply reaches_step; [apply step_kvs_to_mixed; assumption | | meas_tac].
+  assert (Hsig : significant c = true).
+  { apply value_start_or_close_sig. destruct Hc as [H| ->]; [left; left; exact H | right; reflexivity]. }
+  repeat split. cbn [pdata]. rewrite skip_ws_gap_sig by assumption. rewrite skip_ws_significant by assumption. reflexivity.
+Qed.
+
+Lemma op2_symbol o rest : o <> TextTok.Exists -> hdP (fun c => c <> 61%N) rest ->
+  op2 (op_symbol o ++ rest) = Some (o, length (op_symbol o)).
+Proof.
+  intros Ho Hr. destruct o; cbn [op_symbol app length]; try reflexivity; try congruence;
+    (destruct rest as [|c r]; [reflexivity|]; cbn [hdP] in Hr; cbn [op2];
+     destruct c as [|pc]; [reflexivity|]; repeat (destruct pc as [pc|pc|]; try reflexivity); congruence).
+Qed.
+
+(* an operator in an array: the array turns into (or already is) a key-value list *)
+Lemma step_arrval_op g o rest (m : bool) p T x :
+  gap_ok g -> o <> TextTok.Exists -> hdP (fun c => c <> 61%N) rest -> is_scalar_tok x = true ->
+  step (mkps (g ++ op_symbol o ++ rest) SArrVal m p (T ++ [x])) =
+  Next (mkps rest SArrVal true p ((if m then T ++ [x] else T ++ [TMixedContainer; x]) ++ [TOperator o])).
+Proof.
+  intros Hg Ho Hr Hx.
+  assert (exists c r, op_symbol o = c :: r /\ significant c = true /\ beq c 123 = false /\ beq c 125 = false /\
+                      (beq c 34 || beq c 64) = false /\ (beq c 60 || beq c 62 || beq c 33 || beq c 61) = true)
+    as (c & r & Eo & Hsig & H123 & H125 & Hq & Hop).
+  { destruct o; try congruence; eexists _, _; repeat split. }
+  unfold step. cbn [pdata pst_ pmixed pparent ptape].
+  pose proof (op2_symbol o rest Ho Hr) as Hop2. rewrite Eo in *. cbn [app] in *.
+  rewrite skip_ws_gap_sig by assumption. rewrite H123, H125, Hq, Hop, Hop2.
+  assert (Hskip : skipn (length (c :: r)) (c :: r ++ rest) = rest).
+  { change (c :: r ++ rest) with ((c :: r) ++ rest). rewrite skipn_app, Nat.sub_diag, skipn_all. reflexivity. }
+  destruct m.
+  - rewrite Hskip. reflexivity.
+  - unfold tlast. rewrite length_snoc. cbn [Nat.sub]. rewrite Nat.sub_0_r, nth_error_mid, Hx, tinsert_snoc, Hskip. reflexivity.
+Qed.
+
+Lemma reach_arrval_op g o rest (m : bool) p T x :
+  gap_ok g -> o <> TextTok.Exists -> hdP (fun c => c <> 61%N) rest -> is_scalar_tok x = true ->
+  reaches (mkps (g ++ op_symbol o ++ rest) SArrVal m p (T ++ [x]))
+          (mkps rest SArrVal true p ((if m then T ++ [x] else T ++ [TMixedContainer; x]) ++ [TOperator o])).
+Proof.
+  intros Hg Ho Hr Hx. eapply reaches_step; [apply step_arrval_op; assumption | apply same_upto_ws_refl |].
+  meas_tac. destruct o; cbn [op_symbol length]; lia.
+Qed.
+
+(* ------------------------------------------------------------------ objects with a tail of bare values *)
+Definition OHlemma (fs : fields) : Prop :=
+  forall g i more T p, (forall j, gap_ok (g j)) -> sep_ok g (toks_fields fs ++ more) i -> T <> [] ->
+  reaches (mkps (render_toks g (toks_fields fs ++ more) i) SOpen false p (T ++ [TArray 0 false]))
+          (mkps (render_toks g more (i + length (toks_fields fs))) SKey false (length T)
+                (T ++ TObject p false :: flat_fields false (S (length T)) fs)).
+
+Lemma OH_field k key o v fs :
+  wf_scalar k key = true -> obj_first_op (Some o) = true -> FRlemma (Some o) v -> Flemma fs ->
+  OHlemma (FCons (Field k key (Some o) v) fs).
+Proof.
+  intros Hkey Hop HFR HF g i more T p Hg Hsep HT.
+  cbn [toks_fields toks_field app] in *.
+  rewrite <- ?app_assoc in *. cbn [app] in *. rewrite <- ?app_assoc in *.
+  cbn [sep_ok] in Hsep. destruct Hsep as [Hs Hsep]. rewrite render_toks_cons. cbn [fst stok].
+  assert (Hb : k = Unq -> starts_boundary (render_toks g (optok (Some o) ++ toks_value v ++ toks_fields fs ++ more) (S i)))
+    by (intros ->; apply Hs; reflexivity).
+  destruct (op_first_not_eq o Hop) as (c2 & r2 & Eo & Hobj & Hsig).
+  assert (Hsk : skip_ws_t (render_toks g (optok (Some o) ++ toks_value v ++ toks_fields fs ++ more) (S i)) =
+                Some (c2 :: r2 ++ render_toks g (toks_value v ++ toks_fields fs ++ more) (S (S i)))).
+  { cbn [optok app render_toks fst]. rewrite Eo. cbn [app]. apply skip_ws_gap_sig; [apply Hg | exact Hsig]. }
+  eapply reaches_trans.
+  { eapply reaches_eq; [apply (reach_open_scalar (g i) k key _ p T (TArray 0 false) _ _ (Hg i) Hkey Hb Hsk)|].
+    rewrite Hobj. reflexivity. }
+  eapply reaches_trans.
+  { apply (HFR g (S i) (toks_fields fs ++ more) (T ++ [TObject p false; scalar_tok k key]) (length T) Hg Hsep).
+    right. exists p. apply nth_error_mid. }
+  apply sep_ok_app in Hsep. apply sep_ok_app in Hsep.
+  eapply reaches_eq.
+  { apply (HF g _ more _ (length T) Hg Hsep).
+    right. right. exists p. rewrite <- app_assoc. cbn [app]. apply nth_error_mid. }
+  cbn [flat_fields flat_field]. rewrite !app_length. cbn [length app]. rewrite !app_length. cbn [length].
+  tape_eq.
+Qed.
+
+Definition tail_toks (off : nat) (tl : values) : ttape :=
+  match tl with VNil => [] | VCons _ _ => TMixedContainer :: flat_values (S off) tl end.
+
+Definition OElemma (c : vctx) (tl : values) : Prop :=
+  forall g i more T p U, (forall j, gap_ok (g j)) -> sep_ok g (toks_values tl ++ rbrace :: more) i -> ctx_ok c T p ->
+  reaches (mkps (render_toks g (toks_values tl ++ rbrace :: more) i) SKey false (length T) (T ++ TObject p false :: U))
+          (mkps (render_toks g more (i + length (toks_values tl) + 1)) (post_st c) false p
+                (T ++ TObject (length T + 1 + length U + length (tail_toks (length T + 1 + length U) tl)) (values_nonempty tl)
+                   :: U ++ tail_toks (length T + 1 + length U) tl ++ [TEnd (length T)])).
+
+Lemma B_object_gen c fs tv : OHlemma fs -> OElemma c tv -> Blemma c (VObject fs tv).
+Proof.
+  intros HOH HOE g i more T p Hg Hsep Hctx.
+  cbn [toks_value tl] in *. rewrite <- ?app_assoc in *. cbn [app] in *.
+  eapply reaches_trans; [apply (HOH g i _ T p Hg Hsep); eapply ctx_ok_ne; eassumption|].
+  apply sep_ok_app in Hsep.
+  eapply reaches_eq; [apply (HOE g _ more T p _ Hg Hsep Hctx)|].
+  cbn [flat_value]. rewrite !app_length. cbn [length]. rewrite ?flat_fields_len.
+  destruct tv; cbn [tail_toks length toks_values app]; tape_eq.
+Qed.
+
+Lemma OE_nil c : OElemma c VNil.
+Proof.
+  intros g i more T p U Hg Hsep Hctx. cbn [toks_values app length tail_toks values_nonempty] in *.
+  rewrite render_toks_cons. cbn [fst rbrace app].
+  eapply reaches_eq.
+  { apply (reach_key_close (g i) _ false T p U (post_st c) false (Hg i)).
+    - eapply ctx_ok_ne; eassumption.
+    - apply (ctx_ok_restore c). apply (ctx_ok_app c T p _ Hctx). }
+  tape_eq.
+Qed.
+
+(* bare values in a mixed container *)
+Lemma T_all : forall vs, wf_tail vs = true ->
+  forall g i more T p, (forall j, gap_ok (g j)) -> sep_ok g (toks_values vs ++ more) i ->
+  reaches (mkps (render_toks g (toks_values vs ++ more) i) SArrVal true p T)
+          (mkps (render_toks g more (i + length (toks_values vs))) SArrVal true p (T ++ flat_values (length T) vs)).
+Proof.
+  induction vs as [|v vs IH]; intros Hwf g i more T p Hg Hsep.
+  - cbn [toks_values app length flat_values]. rewrite Nat.add_0_r, app_nil_r. apply reaches_refl.
+  - cbn [wf_tail] in Hwf. andb_split. destruct v as [k s| | | |]; try discriminate.
+    cbn [toks_values toks_value app wf_value] in *. cbn [sep_ok] in Hsep. destruct Hsep as [Hs Hsep].
+    rewrite render_toks_cons. cbn [fst stok].
+    eapply reaches_trans.
+    { apply (reach_arrval_scalar (g i) k s _ true p T (Hg i)); [assumption|]. intros ->. apply Hs. reflexivity. }
+    eapply reaches_eq; [apply (IH ltac:(assumption) g (S i) more _ p Hg Hsep)|].
+    unfold tpush. cbn [flat_values flat_value length app]. rewrite !app_length. cbn [length]. tape_eq.
+Qed.
+
+Lemma wf_unq_second c r : wf_unq (c :: r) = true -> hdP (fun x => x <> 61%N) r.
+Proof.
+  unfold wf_unq. intros H. andb_split. destruct r as [|x r]; [exact I|]. cbn [hdP].
+  cbn [forallb] in *. andb_split. intros ->. discriminate.
+Qed.
+
+Definition close_or_scalar (c : N) : Prop := scalar_start c = true \/ c = 125%N.
+
+Lemma tail_first vs more : wf_tail vs = true -> tok_starts close_or_scalar (toks_values vs ++ rbrace :: more).
+Proof.
+  destruct vs as [|v vs]; cbn [toks_values app wf_tail].
+  - intros _. exists 125%N, []. split; [reflexivity | right; reflexivity].
+  - intros H. andb_split. destruct v as [k s| | | |]; try discriminate. cbn [toks_value app wf_value] in *.
+    destruct (scalar_bytes_hd _ _ ltac:(eassumption)) as (c & r & E & Hc). exists c, r. split; [exact E | left; exact Hc].
+Qed.
+
+(* the token after the first bare value: never read as an operator *)
+Lemma tail_next vs more g j : (forall j, gap_ok (g j)) -> wf_tail vs = true ->
+  exists c d1, render_toks g (toks_values vs ++ rbrace :: more) j = g j ++ c :: d1 /\ close_or_scalar c /\
+               ~ (c = 63%N /\ exists r, d1 = 61%N :: r).
+Proof.
+  intros Hg Hwf. destruct vs as [|v vs]; cbn [toks_values app wf_tail] in *.
+  - exists 125%N, (render_toks g more (S j)). split; [reflexivity|]. split; [right; reflexivity|]. intros [H _]. discriminate.
+  - andb_split. destruct v as [k s| | | |]; try discriminate. cbn [toks_value app wf_value] in *.
+    destruct (scalar_bytes_hd k s ltac:(assumption)) as (c & r & E & Hc).
+    exists c, (r ++ render_toks g (toks_values vs ++ rbrace :: more) (S j)).
+    split; [rewrite render_toks_cons; cbn [fst stok]; rewrite E; reflexivity|]. split; [left; exact Hc|].
+    intros (-> & r' & Er).
+    destruct k; cbn [scalar_bytes wf_scalar] in *; [|discriminate].
+    subst s. pose proof (wf_unq_second _ _ ltac:(eassumption)) as H2.
+    destruct r as [|x r]; cbn [app] in Er.
+    + assert (H3 : hdP (fun x => x <> 61%N) (render_toks g (toks_values vs ++ rbrace :: more) (S j))).
+      { apply render_hdP; [exact Hg | | discriminate |].
+        - intros c Hc' ->. discriminate.
+        - eapply tok_starts_impl; [|apply tail_first; assumption]. intros c [Hc'| ->]; [|discriminate]. intros ->. discriminate. }
+      rewrite Er in H3. apply H3. reflexivity.
+    + inversion Er. subst. apply H2. reflexivity.
+Qed.
+
+Lemma OE_tail c k s tl : wf_scalar k s = true -> wf_tail tl = true -> OElemma c (VCons (VScalar k s) tl).
+Proof.
+  intros Hwf Hwft g i more T p U Hg Hsep Hctx.
+  cbn [toks_values toks_value app length values_nonempty] in *.
+  cbn [sep_ok] in Hsep. destruct Hsep as [Hs Hsep]. rewrite render_toks_cons. cbn [fst stok].
+  eapply reaches_trans.
+  { apply (reach_key_scalar (g i) k s _ false (length T) _ (Hg i) Hwf). intros ->. apply Hs. reflexivity. }
+  destruct (tail_next tl more g (S i) Hg Hwft) as (c2 & d1 & Ed & Hc2 & Hq).
+  eapply reaches_trans.
+  { rewrite Ed. unfold tpush. apply (reach_kvs_to_mixed (g (S i)) c2 d1 (length T) _ _ (Hg _) Hc2 Hq). }
+  rewrite <- Ed.
+  eapply reaches_trans; [apply (T_all tl Hwft g (S i) (rbrace :: more) _ (length T) Hg Hsep)|].
+  apply sep_ok_app in Hsep. rewrite render_toks_cons. cbn [fst rbrace app].
+  eapply reaches_eq.
+  { rewrite <- !app_assoc. cbn [app].
+    apply (reach_arrval_close (g _) _ true T p false _ (post_st c) false false (Hg _)).
+    - eapply ctx_ok_ne; eassumption.
+    - apply (ctx_ok_restore c). apply (ctx_ok_app c T p _ Hctx). }
+  cbn [tail_toks flat_values flat_value]. rewrite !app_length. cbn [length app]. rewrite !app_length. cbn [length].
+  tape_eq.
+Qed.
+
+(* ------------------------------------------------------------------ arrays that turn into key-value lists *)
+Lemma is_scalar_tok_scalar k s : is_scalar_tok (scalar_tok k s) = true.
+Proof. destruct k; reflexivity. Qed.
+
+(* one `key op scalar` inside an array; m = the marker is already there *)
+Lemma KV1 (m : bool) k key o kv sv :
+  wf_scalar k key = true -> o <> TextTok.Exists -> wf_scalar kv sv = true ->
+  forall g i more T p, (forall j, gap_ok (g j)) ->
+  sep_ok g (stok k key :: (op_symbol o, false) :: stok kv sv :: more) i ->
+  reaches (mkps (render_toks g (stok k key :: (op_symbol o, false) :: stok kv sv :: more) i) SArrVal m p T)
+          (mkps (render_toks g more (S (S (S i)))) SArrVal true p
+                (T ++ (if m then [] else [TMixedContainer]) ++ [scalar_tok k key; TOperator o; scalar_tok kv sv])).
+Proof.
+  intros Hkey Ho Hval g i more T p Hg Hsep.
+  cbn [sep_ok] in Hsep. destruct Hsep as (Hs1 & _ & Hs3 & _).
+  rewrite !render_toks_cons. cbn [fst stok].
+  eapply reaches_trans.
+  { apply (reach_arrval_scalar (g i) k key _ m p T (Hg i) Hkey). intros ->. apply Hs1. reflexivity. }
+  eapply reaches_trans.
+  { unfold tpush. apply (reach_arrval_op (g (S i)) o _ m p T _ (Hg _) Ho); [|apply is_scalar_tok_scalar].
+    destruct (scalar_bytes_hd _ _ Hval) as (cv & rv & Ev & Hcv). rewrite Ev.
+    apply hdP_gap; [apply Hg | | discriminate |].
+    - intros c Hc ->. discriminate.
+    - cbn. intros ->. discriminate. }
+  eapply reaches_eq.
+  { apply (reach_arrval_scalar (g (S (S i))) kv sv _ true p _ (Hg _) Hval). intros ->. apply Hs3. reflexivity. }
+  unfold tpush. destruct m; tape_eq.
+Qed.
+
+Lemma KV_all : forall kvs, wf_kvs kvs = true ->
+  forall g i more T p, (forall j, gap_ok (g j)) -> sep_ok g (toks_fields kvs ++ more) i ->
+  reaches (mkps (render_toks g (toks_fields kvs ++ more) i) SArrVal true p T)
+          (mkps (render_toks g more (i + length (toks_fields kvs))) SArrVal true p (T ++ flat_fields true (length T) kvs)).
+Proof.
+  induction kvs as [|f kvs IH]; intros Hwf g i more T p Hg Hsep.
+  - cbn [toks_fields app length flat_fields]. rewrite Nat.add_0_r, app_nil_r. apply reaches_refl.
+  - destruct f as [k key op v| |]; try discriminate. cbn [wf_kvs] in Hwf. andb_split.
+    destruct v as [kv sv| | | |]; try discriminate. destruct op as [o|]; [|discriminate].
+    cbn [toks_fields toks_field toks_value optok app wf_value] in *.
+    assert (Ho : o <> TextTok.Exists) by (intros ->; discriminate).
+    eapply reaches_trans; [apply (KV1 true k key o kv sv ltac:(assumption) Ho ltac:(assumption) g i _ T p Hg Hsep)|].
+    cbn [sep_ok] in Hsep. destruct Hsep as (_ & _ & _ & Hsep).
+    eapply reaches_eq; [apply (IH ltac:(assumption) g _ more _ p Hg Hsep)|].
+    assert (E : op_toks true (Some o) = [TOperator o]) by (destruct o; reflexivity).
+    cbn [flat_fields flat_field flat_value length app]. rewrite E. rewrite !app_length. cbn [length app].
+    tape_eq.
+Qed.
+
+Lemma akv_first items kvs more : wf_items items = true -> wf_kvs kvs = true -> kvs_nonempty kvs = true ->
+  tok_starts value_start (toks_values items ++ toks_fields kvs ++ rbrace :: more).
+Proof.
+  intros Hi Hk Hne. destruct items as [|v vs]; cbn [toks_values app wf_items] in *.
+  - destruct kvs as [|f kvs]; [discriminate|]. destruct f as [k key op v| |]; try discriminate.
+    cbn [wf_kvs toks_fields toks_field app] in *. andb_split.
+    destruct (scalar_bytes_hd k key ltac:(assumption)) as (c & r & E & Hc). exists c, r. split; [exact E | left; exact Hc].
+  - andb_split. rewrite <- app_assoc. apply value_first. assumption.
+Qed.
+
+Lemma B_arraykv c k s items kvs :
+  wf_scalar k s = true -> wf_items items = true -> wf_kvs kvs = true -> kvs_nonempty kvs = true ->
+  Ilemma items -> Blemma c (VArrayKv (VCons (VScalar k s) items) kvs).
+Proof.
+  intros Hwf Hwfi Hwfk Hne HI g i more T p Hg Hsep Hctx.
+  cbn [toks_value tl toks_values toks_value app] in *. rewrite <- ?app_assoc in *. cbn [app] in *.
+  cbn [sep_ok] in Hsep. destruct Hsep as [Hs Hsep]. rewrite render_toks_cons. cbn [fst stok].
+  assert (Hb : k = Unq -> starts_boundary (render_toks g (toks_values items ++ toks_fields kvs ++ rbrace :: more) (S i)))
+    by (intros ->; apply Hs; reflexivity).
+  destruct (render_skip _ g _ (S i) Hg value_start_sig (akv_first items kvs more Hwfi Hwfk Hne)) as (c2 & r2 & Hsk & Hc2).
+  eapply reaches_trans.
+  { eapply reaches_eq; [apply (reach_open_scalar (g i) k s _ p T (TArray 0 false) c2 r2 (Hg i) Hwf Hb Hsk)|].
+    rewrite (value_start_not_obj c2 (or_introl Hc2)). reflexivity. }
+  eapply reaches_trans.
+  { apply (HI g (S i) _ (T ++ [TArray p false; scalar_tok k s]) (length T) Hg Hsep). exists p. apply nth_error_mid. }
+  apply sep_ok_app in Hsep.
+  destruct kvs as [|f kvs]; [discriminate|]. destruct f as [kk key op v| |]; try discriminate.
+  cbn [wf_kvs] in Hwfk. andb_split. destruct v as [kv sv| | | |]; try discriminate. destruct op as [o|]; [|discriminate].
+  cbn [toks_fields toks_field toks_value optok app wf_value] in *. rewrite <- ?app_assoc in *. cbn [app] in *.
+  assert (Ho : o <> TextTok.Exists) by (intros ->; discriminate).
+  eapply reaches_trans; [apply (KV1 false kk key o kv sv ltac:(assumption) Ho ltac:(assumption) g _ _ _ (length T) Hg Hsep)|].
+  cbn [sep_ok] in Hsep. destruct Hsep as (_ & _ & _ & Hsep).
+  eapply reaches_trans; [apply (KV_all kvs ltac:(assumption) g _ (rbrace :: more) _ (length T) Hg Hsep)|].
+  apply sep_ok_app in Hsep. rewrite render_toks_cons. cbn [fst rbrace app].
+  eapply reaches_eq.
+  { rewrite <- ?app_assoc. cbn [app]. rewrite <- ?app_assoc. cbn [app].
+    apply (reach_arrval_close (g _) _ true T p false _ (post_st c) false true (Hg _)).
+    - eapply ctx_ok_ne; eassumption.
+    - apply (ctx_ok_restore c). apply (ctx_ok_app c T p _ Hctx). }
+  assert (E : op_toks true (Some o) = [TOperator o]) by (destruct o; reflexivity).
+  cbn [flat_value flat_values flat_fields flat_field flat_value]. rewrite E.
+  rewrite !app_length. cbn [length app]. rewrite !app_length. cbn [length app]. rewrite !app_length. cbn [length app].
+  tape_eq.
+Qed.
+
+(* ------------------------------------------------------------------ stage 3: everything but parameters *)
 Definition Pv (v : value) : Prop :=
-  wf_value v = true -> plain_value v = true ->
+  wf_value v = true -> noparam_value v = true ->
   forall c, ((c = CArr -> is_header v = false) -> Vlemma c v) /\ (is_container v = true -> Blemma c v).
 Definition Pf (f : field) : Prop :=
-  wf_field f = true -> plain_field f = true ->
+  wf_field f = true -> noparam_field f = true ->
   F1lemma f /\ match f with Field _ _ op v => FRlemma op v | _ => True end.
 Definition Pfs (fs : fields) : Prop :=
-  wf_fields fs = true -> plain_fields fs = true ->
+  wf_fields fs = true -> noparam_fields fs = true ->
   Flemma fs /\ match fs with FCons (Field _ _ op v) fs' => FRlemma op v /\ Flemma fs' | _ => True end.
 Definition Pvs (vs : values) : Prop :=
-  wf_items vs = true -> plain_values vs = true ->
+  wf_items vs = true -> noparam_values vs = true ->
   Ilemma vs /\ match vs with VCons _ vs' => Ilemma vs' | VNil => True end.
 
-Lemma plain_all :
+Lemma noparam_all :
   (forall v, Pv v) /\ (forall f, Pf f) /\ (forall fs, Pfs fs) /\ (forall vs, Pvs vs).
 Proof.
   apply doc_mutind.
   - (* scalar *)
     intros k s Hwf _ c. split; [intros _; apply V_scalar; exact Hwf | discriminate].
   - (* object *)
-    intros fs IHfs tlv IHtl Hwf Hpl c. cbn [wf_value plain_value] in Hwf, Hpl. andb_split.
-    destruct tlv; [|discriminate].
-    assert (HB : Blemma c (VObject fs VNil)).
-    { destruct (IHfs ltac:(assumption) ltac:(assumption)) as [_ Hparts].
-      destruct fs as [|f fs']; [discriminate|]. destruct f as [k key op v| |]; try discriminate.
-      cbn [first_field_ok] in *. destruct op as [o|]; [|discriminate].
-      destruct Hparts as [HFR HF'].
-      cbn [wf_fields wf_field] in *. andb_split.
-      apply B_object; assumption. }
+    intros fs IHfs tlv IHtl Hwf Hpl c. cbn [wf_value noparam_value] in Hwf, Hpl. andb_split.
+    assert (HB : Blemma c (VObject fs tlv)).
+    { apply B_object_gen.
+      - destruct (IHfs ltac:(assumption) ltac:(assumption)) as [_ Hparts].
+        destruct fs as [|f fs']; [discriminate|]. destruct f as [k key op v| |]; try discriminate.
+        cbn [first_field_ok] in *. destruct op as [o|]; [|discriminate].
+        destruct Hparts as [HFR HF'].
+        cbn [wf_fields wf_field] in *. andb_split.
+        apply OH_field; assumption.
+      - destruct tlv as [|v tl']; [apply OE_nil|].
+        cbn [wf_tail] in *. andb_split. destruct v as [k s| | | |]; try discriminate.
+        apply OE_tail; assumption. }
     split; [intros _; apply V_of_B; [reflexivity | exact HB] | intros _; exact HB].
   - (* array *)
-    intros items IH Hwf Hpl c. cbn [wf_value plain_value] in Hwf, Hpl. andb_split.
+    intros items IH Hwf Hpl c. cbn [wf_value noparam_value] in Hwf, Hpl. andb_split.
     assert (HB : Blemma c (VArray items)).
     { destruct (IH ltac:(assumption) ltac:(assumption)) as [HI Hparts].
       destruct items as [|v vs]; [apply B_array_nil|].
@@ -1048,18 +1372,25 @@ Proof.
       destruct v as [k s| | | |]; try discriminate.
       - apply B_array_scalar; assumption.
       - apply B_array_cont; auto.
-      - apply B_array_cont; auto. destruct items; [discriminate | reflexivity]. }
+      - apply B_array_cont; auto. destruct items; [discriminate | reflexivity].
+      - apply B_array_cont; auto. }
     split; [intros _; apply V_of_B; [reflexivity | exact HB] | intros _; exact HB].
-  - (* array -> key-value list: not in this sub-grammar *)
-    intros items _ kvs _ _ Hpl. discriminate.
+  - (* array -> key-value list *)
+    intros items IH kvs _ Hwf Hpl c. cbn [wf_value noparam_value] in Hwf, Hpl. andb_split.
+    assert (HB : Blemma c (VArrayKv items kvs)).
+    { destruct (IH ltac:(assumption) ltac:(assumption)) as [_ Hparts].
+      destruct items as [|v vs]; [discriminate|]. destruct v as [k s| | | |]; try discriminate.
+      cbn [wf_items wf_value] in *. andb_split.
+      apply B_arraykv; assumption. }
+    split; [intros _; apply V_of_B; [reflexivity | exact HB] | intros _; exact HB].
   - (* header *)
-    intros name v IH Hwf Hpl c. cbn [wf_value plain_value] in Hwf, Hpl. andb_split.
+    intros name v IH Hwf Hpl c. cbn [wf_value noparam_value] in Hwf, Hpl. andb_split.
     split; [|discriminate]. intros Hc. destruct c; [|specialize (Hc eq_refl); discriminate].
     apply V_header; try assumption.
     + match goal with H : negb _ = true |- _ => apply Bool.negb_true_iff in H; exact H end.
     + apply (IH ltac:(assumption) ltac:(assumption) CObj). assumption.
   - (* field *)
-    intros k key op v IH Hwf Hpl. cbn [wf_field plain_field] in Hwf, Hpl. andb_split.
+    intros k key op v IH Hwf Hpl. cbn [wf_field noparam_field] in Hwf, Hpl. andb_split.
     assert (HFR : FRlemma op v).
     { apply FR_of_V; [assumption | | apply (IH ltac:(assumption) ltac:(assumption) CObj); discriminate].
       intros ->. assumption. }
@@ -1069,7 +1400,7 @@ Proof.
   - (* no field *)
     intros _ _. split; [apply F_nil | exact I].
   - (* fields *)
-    intros f IHf fs IHfs Hwf Hpl. cbn [wf_fields plain_fields] in Hwf, Hpl. andb_split.
+    intros f IHf fs IHfs Hwf Hpl. cbn [wf_fields noparam_fields] in Hwf, Hpl. andb_split.
     destruct (IHf ltac:(assumption) ltac:(assumption)) as [HF1 Hparts].
     destruct (IHfs ltac:(assumption) ltac:(assumption)) as [HF _].
     split.
@@ -1079,7 +1410,7 @@ Proof.
     + destruct f as [k key op v| |]; [split; assumption | exact I | exact I].
   - intros _ _. split; [apply I_nil | exact I].
   - (* items *)
-    intros v IHv vs IHvs Hwf Hpl. cbn [wf_items plain_values] in Hwf, Hpl. andb_split.
+    intros v IHv vs IHvs Hwf Hpl. cbn [wf_items noparam_values] in Hwf, Hpl. andb_split.
     destruct (IHvs ltac:(assumption) ltac:(assumption)) as [HI _].
     split; [|exact HI].
     apply I_cons; [|exact HI].
@@ -1087,12 +1418,28 @@ Proof.
     match goal with H : negb _ = true |- _ => apply Bool.negb_true_iff in H; exact H end.
 Qed.
 
-Theorem parse_render_plain : forall d l,
-  plain_fields d = true -> wf_doc d -> wf_layout d l -> parse (render d l) = Ok (flatten d, bom l).
+Theorem parse_render_noparam : forall d l,
+  noparam_fields d = true -> wf_doc d -> wf_layout d l -> parse (render d l) = Ok (flatten d, bom l).
 Proof.
   intros d l Hpl Hwf Hl. eapply parse_of_reaches; [exact Hl|].
   destruct Hl as (Hg & Hsep & _).
-  destruct (proj1 (proj2 (proj2 plain_all)) d Hwf Hpl) as [HF _].
+  destruct (proj1 (proj2 (proj2 noparam_all)) d Hwf Hpl) as [HF _].
   specialize (HF (gap l) 0 [] [] 0 Hg). rewrite !app_nil_r in HF.
   apply HF; [exact Hsep | left; split; reflexivity].
 Qed.
+
+
+Lemma plain_noparam :
+  (forall v, plain_value v = true -> noparam_value v = true) /\
+  (forall f, plain_field f = true -> noparam_field f = true) /\
+  (forall fs, plain_fields fs = true -> noparam_fields fs = true) /\
+  (forall vs, plain_values vs = true -> noparam_values vs = true).
+Proof.
+  apply doc_mutind; cbn [plain_value plain_field plain_fields plain_values noparam_value noparam_field noparam_fields noparam_values];
+    intros; andb_split; try discriminate; try reflexivity; repeat (apply andb_true_intro; split); auto.
+  destruct tail; [reflexivity | discriminate].
+Qed.
+
+Theorem parse_render_plain : forall d l,
+  plain_fields d = true -> wf_doc d -> wf_layout d l -> parse (render d l) = Ok (flatten d, bom l).
+Proof. intros d l H. apply parse_render_noparam. apply plain_noparam. exact H. Qed.
